@@ -614,9 +614,22 @@ def to_val(w):
   if isinstance(w, VOpt):
     return z3.If(w.is_none, VAL_NONE, to_val(w.inner))
   if isinstance(w, (VList, VDict, VTuple, VRecord)):
-    # opaque injection: a fresh uninterpreted image of the boxed value
+    # opaque injection: an uninterpreted, invertible image of the boxed value
     boxed = w.kind.box(w)
-    f = ufun('val_of_' + _sort_name(w.kind.name), boxed.sort(), Val)
+    sn = _sort_name(w.kind.name)
+    f = ufun('val_of_' + sn, boxed.sort(), Val)
+    g = ufun('val_as_' + sn, Val, boxed.sort())
+    b = z3.Const('b!inj' + sn, boxed.sort())
+    extra = []
+    if isinstance(w, VRecord):
+      extra.append(ufun('isinst_' + w.kind.rname, Val, BoolS)(f(b)))
+    tagname = {VList: 'list', VDict: 'dict', VTuple: 'tuple'}.get(type(w))
+    if isinstance(w, VDict) and getattr(w.kind, 'is_set', False):
+      tagname = 'set'
+    if tagname:
+      extra.append(tag_of(f(b)) == TAG[tagname])
+    add_axiom('inj_' + sn, z3.ForAll([b], z3.And(g(f(b)) == b, *extra),
+                                     patterns=[f(b)]))
     return f(boxed)
   raise OutOfSubset(f'cannot inject {type(w).__name__} into Val')
 
@@ -855,6 +868,39 @@ class VExc(W):
 
   def __repr__(self):
     return f'VExc({self.cname or self.cls})'
+
+
+_pdt = z3.Datatype('Path')
+_pdt.declare('pnil')
+_pdt.declare('psnoc', ('ptail', _pdt), ('plast', Str))
+PathS = _pdt.create()
+
+
+class VPath(W):
+  """A path in a selector tree: components innermost-first (root = pnil)."""
+
+  def __init__(self, e):
+    self.e = e
+
+  def __repr__(self):
+    return f'VPath({self.e})'
+
+
+class _KPath(Kind):
+  name = 'Path'
+
+  def sort(self):
+    return PathS
+
+  def box(self, w):
+    return w.e
+
+  def unbox(self, e):
+    return VPath(e)
+
+
+KPath = _KPath()
+VPath.kind = KPath
 
 
 class VPy(W):
